@@ -182,9 +182,14 @@ fn head_case(rng: &mut Rng, all_prefixes: bool, redirect_focus: bool, rec: &mut 
             return rec.fail("C05/ready-on-prefix", format!("prefix {}: can_proceed() true", p));
         }
     }
-    // (b) the head, and the head plus tail, on fresh flows, through Flow, Call and the bare parser
-    for end in [hlen, stream.len()] {
-        let mut f = recv_flow(method);
+    // (b) the head, and the head plus tail, on fresh flows reached by every route, through Flow, Call and the bare parser
+    for (ri, end) in [hlen, stream.len(), hlen, stream.len()].into_iter().enumerate() {
+        let route = if lane { Route::Plain(method) } else { routes[(ri + nf) % 4] };
+        let mut f = match recv_flow_via(route, &stream[..decided_at.min(stream.len())]) {
+            Some(f) => f,
+            None => recv_flow(method),
+        };
+        rec.cov(&format!("complete-route/{}", route.name()));
         rec.call();
         match f.try_response(&stream[..end]) {
             Ok((n, Some(resp))) => {
@@ -228,6 +233,37 @@ fn head_case(rng: &mut Rng, all_prefixes: bool, redirect_focus: bool, rec: &mut 
     }
     if lane {
         return;
+    }
+    // (c') one flow offered a window ending 1, 2 or 3 bytes before the end of the head, then the rest
+    for back in 1..=3usize {
+        if hlen <= back {
+            continue;
+        }
+        let mut f = recv_flow(method);
+        let mut steps = vec![hlen - back];
+        if back > 1 && rng.chance(1, 2) {
+            steps.push(hlen - 1);
+        }
+        steps.push(if rng.chance(1, 2) { hlen } else { stream.len() });
+        for (si, p) in steps.iter().enumerate() {
+            rec.call();
+            let last = si + 1 == steps.len();
+            match f.try_response(&stream[..*p]) {
+                Ok((0, None)) if !last => {}
+                Ok((n, Some(resp))) if last => {
+                    if !check_complete(&truth, hlen, n, &observe_response(&resp), rec, "Flow(near-end window)") {
+                        return;
+                    }
+                    rec.cov("near-end-window/complete");
+                }
+                other => {
+                    return rec.fail(
+                        if last { "C05/complete-head-not-accepted" } else { "C05/growing-prefix-misjudged" },
+                        format!("same flow offered {:?} bytes of a {}-byte head in turn; at {}: {:?}", steps, hlen, p, other.map(|(n, r)| (n, r.map(|x| x.status().as_u16())))),
+                    )
+                }
+            }
+        }
     }
     // (c) one flow fed growing prefixes
     let mut f = recv_flow(method);
@@ -329,7 +365,9 @@ impl Property for P {
         v.push(("cut/*".into(), 100_000));
         for r in ["plain", "after-body", "expect-gave-up", "expect-refused"] {
             v.push((format!("route/{}", r), 1000));
+            v.push((format!("complete-route/{}", r), 100));
         }
+        v.push(("near-end-window/complete".into(), 1000));
         v
     }
 }
